@@ -26,7 +26,7 @@ WRAPS_S = ["pthread_mutex_lock", "pthread_mutex_trylock", "pthread_mutex_unlock"
 WRAPS_P = ["pthread_mutex_init", "pthread_mutex_destroy", "pthread_mutex_lock", "pthread_mutex_trylock",
            "pthread_mutex_unlock", "pthread_rwlock_init", "pthread_rwlock_destroy", "pthread_rwlock_rdlock",
            "pthread_rwlock_tryrdlock", "pthread_rwlock_wrlock", "pthread_rwlock_trywrlock", "pthread_rwlock_unlock",
-           "sem_init", "sem_destroy", "sem_post", "sem_wait", "sem_trywait", "pthread_cond_destroy",
+           "sem_init", "sem_destroy", "sem_post", "sem_wait", "sem_trywait", "pthread_cond_init", "pthread_cond_destroy",
            "pthread_cond_signal", "pthread_cond_broadcast", "pthread_cond_wait", "pthread_cond_timedwait",
            "pthread_once", "pthread_key_create", "pthread_key_delete", "pthread_getspecific", "pthread_setspecific",
            "pthread_join", "pthread_barrier_init", "pthread_barrier_wait", "pthread_barrier_destroy"]
@@ -36,6 +36,10 @@ CONC_EXPECT = [
     ("trywr_with_readers", "-16", "uv_rwlock_trywrlock returned %s while 4 readers hold the lock"),
     ("tryrd_with_readers", "0", "uv_rwlock_tryrdlock returned %s with only readers inside"),
     ("tryrd_with_writer", "-16", "uv_rwlock_tryrdlock returned %s while a writer holds the lock"),
+    ("writer_queued_asleep", "1", "the writer never blocked in uv_rwlock_wrlock although a reader holds the lock (%s)"),
+    ("tryrd_with_writer_queued", "0", "uv_rwlock_tryrdlock returned %s with a reader inside and a writer only queued in uv_rwlock_wrlock (no writer holds the lock)"),
+    ("rdlock_joins_reader_with_writer_queued", "1,1", "uv_rwlock_rdlock did not admit a second reader while the first is inside and a writer is queued (joined,first still inside = %s)"),
+    ("queued_writer_got_in_alone", "1", "the queued writer entered while readers were inside / never entered (%s)"),
     ("mutex_overlaps", "0", "%s overlapping critical sections under uv_mutex_lock/trylock"),
     ("trylock_held", "-16", "uv_mutex_trylock on a held mutex returned %s"),
     ("recursive_nests", "0,0", "recursive mutex does not nest / is not released: %s"),
@@ -420,15 +424,29 @@ def main():
     # (f) pass-through table: which pthread function each wrapper calls, on which object
     names, _, _ = vf.run_lines([model, "pass"], ["?"])
     pc = names[0].split() if names else []
+    # by-value arguments of the init wrappers are part of the case
+    pc = [n + (" %d" % chk.rng.randint(0, 1000) if n == "uv_sem_init" else
+               " %d" % chk.rng.randint(1, 64) if n == "uv_barrier_init" else "") for n in pc]
     a, b = both("pass", pc, [hpass], shards=1)
 
     def pass_monitor(case, line):
         return "%s calls %s (expected exactly one call of the mapped pthread function on the same object)" \
-            % (case, line) if sum(1 for x in line.split() if x.endswith(":1")) != 1 or not line.endswith(":1") else None
+            % (case, line) if sum(1 for x in line.split() if ":1" in x) != 1 or ":1" not in line.split()[-1] else None
     vf.diff_cases(chk, "thread.c wrappers -> pthread calls = Model/Thread.v passthrough", pc, a, b, pass_monitor)
     chk.cov["passthrough_wrappers"] = len(pc)
-    if len(pc) != 32:
-        chk.violation("pass-through table has %d entries, 32 expected" % len(pc), {"kind": "correspondence"}, found_input=False)
+    if len(pc) != 34:
+        chk.violation("pass-through table has %d entries, 34 expected" % len(pc), {"kind": "correspondence"}, found_input=False)
+    # the same table against the library built WITHOUT NDEBUG (uv_mutex_init asks for an error-checking mutex)
+    try:
+        libdbg = vf.build_libuv(chk.scratch, "debug")
+        hpassd = vf.cc_harness(chk.scratch, "c20_pass_dbg", ["c20_pass.c"], lib=libdbg, flavour="debug", wraps=WRAPS_P)
+        macro, _, _ = vf.run_lines([hpassd], ["errorcheck_macro"])
+        chk.cov["PTHREAD_MUTEX_ERRORCHECK_is_macro"] = macro[:1]
+        a, b = both("passdbg" if macro[:1] == ["1"] else "pass", pc, [hpassd], shards=1)
+        vf.diff_cases(chk, "thread.c wrappers -> pthread calls = Model/Thread.v passthrough (build without NDEBUG)",
+                      pc, a, b, pass_monitor)
+    except vf.BuildError as e:
+        chk.violation("debug build failed: %s" % str(e)[:300], {"kind": "build", "log": str(e)}, found_input=False)
 
     # (g) MONITOR-ONLY: real contention, invariant counters (no model involved)
     import concurrent.futures, subprocess
